@@ -84,6 +84,14 @@ impl StubLexer {
     }
 }
 
+impl StubLexer {
+    /// A lexer serving exactly these lexemes (used to parse a *repaired* input from scratch).
+    pub fn from_lexemes(lexemes: Vec<Lx>) -> Self {
+        let end = lexemes.iter().map(|l| l.start + l.len).max().unwrap_or(0);
+        StubLexer { lexemes, text: " ".repeat(end) }
+    }
+}
+
 impl Lexer<LT> for StubLexer {
     fn iter<'a>(&'a self) -> Box<dyn Iterator<Item = Result<Lx, LE>> + 'a> {
         Box::new(self.lexemes.iter().map(|x| Ok(*x)))
